@@ -383,7 +383,8 @@ func Main(t *testing.T) {
 		}
 		seed := simrt.RunSeed(batch, name, i)
 		tp := simrt.NewTape(seed)
-		r := h.fn(t, tp, false)
+		detTrace := det && os.Getenv("VERIF_DET_TRACE") != ""
+		r := h.fn(t, tp, detTrace)
 		wo.Runs++
 		if r.Evals > 0 {
 			wo.Evals += r.Evals
@@ -424,7 +425,7 @@ func Main(t *testing.T) {
 			continue
 		}
 		if det {
-			r2 := h.fn(t, simrt.NewTape(seed), false)
+			r2 := h.fn(t, simrt.NewTape(seed), detTrace)
 			wo.DetChecked++
 			v1, v2 := firstViolation(r), firstViolation(r2)
 			s1, s2 := "", ""
@@ -436,6 +437,25 @@ func Main(t *testing.T) {
 			}
 			if r.Hash != r2.Hash || s1 != s2 || r.Steps != r2.Steps {
 				wo.DetMismatch = append(wo.DetMismatch, fmt.Sprintf("run %d seed %d: hash %x/%x steps %d/%d sig %q/%q", i, seed, r.Hash, r2.Hash, r.Steps, r2.Steps, s1, s2))
+				if detTrace {
+					// debugging aid: show where the two executions of this seed part ways
+					a, b := r, r2
+					k := 0
+					for k < len(a.Trace) && k < len(b.Trace) && a.Trace[k] == b.Trace[k] {
+						k++
+					}
+					fmt.Printf("DETTRACE run %d: traces differ at line %d (lengths %d/%d)\n", i, k, len(a.Trace), len(b.Trace))
+					for j := max(0, k-8); j < k+8; j++ {
+						x, y := "", ""
+						if j < len(a.Trace) {
+							x = a.Trace[j]
+						}
+						if j < len(b.Trace) {
+							y = b.Trace[j]
+						}
+						fmt.Printf("DETTRACE  %5d | %-70s | %s\n", j, x, y)
+					}
+				}
 			}
 			if os.Getenv("VERIF_DET_DUMP") != "" {
 				fmt.Printf("DET %d %x %d %s\n", i, r.Hash, r.Steps, s1)
